@@ -509,7 +509,24 @@ class ConstEval:
         memo = self.__dict__.setdefault("_defaults", {})
         k = id(node)
         if k not in memo or memo[k][0] is not node:
-            memo[k] = (node, self.eval(node, {}, mod))
+            try:
+                v = self.eval(node, {}, mod)
+            except NotConstant:
+                # the default of a method is evaluated in the class body: names of earlier class attributes are visible there
+                v = NotImplemented
+                for ck, c in self.M.classes.items():
+                    if ck[0] == mod and any(node in ast.walk(f_.node.args) for f_ in c.methods.values()):
+                        env = {}
+                        for n2 in c.consts:
+                            try:
+                                env[n2] = self.class_const(ck[0], ck[1], n2)
+                            except NotConstant:
+                                pass
+                        v = self.eval(node, env, mod)
+                        break
+                if v is NotImplemented:
+                    raise
+            memo[k] = (node, v)
         return memo[k][1]
 
     def eval(self, e, env, mod):
